@@ -334,7 +334,6 @@ func TestC14Mcrew(t *testing.T) {
 		genMRoute, checkMRoute)
 }
 
-
 // diffCounts summarises how two multisets differ.
 func diffCounts(got, want []string) string {
 	m := map[string]int{}
